@@ -48,12 +48,121 @@ fn statements(block: &str) -> Vec<String> {
     inner.split_inclusive(';').map(|s| s.to_string()).filter(|s| !s.is_empty()).collect()
 }
 
+/// Shapes of one binding that can be declared in several ways without changing its WGSL type.
+/// (type text, declaration variants `(address space / access prefix)`, access expression yielding f32 or None)
+const TWIN_TYPES: [(&str, &[&str]); 9] = [
+    ("vec4<f32>", &["var<uniform>", "var<storage, read>", "var<storage, read_write>"]),
+    ("array<vec4<f32>>", &["var<storage, read>", "var<storage, read_write>"]),
+    ("Params", &["var<uniform>", "var<storage, read>", "var<storage, read_write>", "var<storage>"]),
+    ("mat4x4<f32>", &["var<uniform>", "var<storage, read_write>"]),
+    ("array<vec4<f32>, 4>", &["var<uniform>", "var<storage, read>"]),
+    ("array<u32>", &["var<storage, read>", "var<storage, read_write>"]),
+    ("texture_2d<f32>", &["var"]),
+    ("sampler", &["var"]),
+    ("f32", &["var<uniform>", "var<storage, read_write>"]),
+];
+
+fn twin_access(ty: &str, name: &str) -> Option<String> {
+    Some(match ty {
+        "vec4<f32>" => format!("{name}.x"),
+        "array<vec4<f32>>" => format!("{name}[0].y"),
+        "Params" => format!("{name}.scale"),
+        "mat4x4<f32>" => format!("{name}[0].x"),
+        "array<vec4<f32>, 4>" => format!("{name}[1].z"),
+        "array<u32>" => format!("f32({name}[0])"),
+        "texture_2d<f32>" => format!("textureLoad({name}, vec2<i32>(0, 0), 0).x"),
+        "f32" => name.to_string(),
+        _ => return None,
+    })
+}
+
+fn twin_case(i: usize, rng: &mut Rng) -> Case {
+    let n_groups = rng.range(2, 4);
+    let n_b = rng.range(1, 3);
+    // the shared shape: (binding index, type)
+    let mut shape: Vec<(u32, usize)> = vec![];
+    for _ in 0..n_b {
+        let mut b = rng.below(6) as u32;
+        while shape.iter().any(|(x, _)| *x == b) {
+            b += 1;
+        }
+        shape.push((b, rng.below(TWIN_TYPES.len())));
+    }
+    // an optional odd group in front / between / behind with another shape
+    let odd_at = if rng.chance(1, 3) { Some(rng.below(n_groups + 1)) } else { None };
+    let mut per_group: Vec<Vec<String>> = vec![];
+    let mut names: Vec<Vec<(String, &str)>> = vec![];
+    let mut g = 0u32;
+    let same_space = i % 4 == 3; // identical declarations: the groups differ only in the stages that use them
+    for k in 0..=n_groups {
+        if odd_at == Some(k) {
+            per_group.push(vec![format!("@group({g}) @binding(0) var<uniform> odd{g}: vec2<f32>;"), format!("@group({g}) @binding(7) var odd_s{g}: sampler_comparison;")]);
+            names.push(vec![]);
+            g += 1;
+        }
+        if k == n_groups {
+            break;
+        }
+        let mut decls = vec![];
+        let mut ns = vec![];
+        for (j, (b, t)) in shape.iter().enumerate() {
+            let (ty, variants) = TWIN_TYPES[*t];
+            let v = if same_space { variants[0] } else { variants[(k + rng.below(2)) % variants.len()] };
+            let name = format!("v{g}_{j}");
+            decls.push(format!("@group({g}) @binding({b}) {v} {name}: {ty};"));
+            ns.push((name, ty));
+        }
+        per_group.push(decls);
+        names.push(ns);
+        g += 1;
+    }
+    let mut s = String::from("struct Params { scale: f32, offset: vec3<f32> }\n");
+    if rng.chance(1, 3) {
+        // interleaved: first binding of every group, then the second ... (relative order inside a group kept)
+        let longest = per_group.iter().map(|d| d.len()).max().unwrap_or(0);
+        for j in 0..longest {
+            for d in &per_group {
+                if let Some(l) = d.get(j) {
+                    s.push_str(l);
+                    s.push('\n');
+                }
+            }
+        }
+    } else {
+        let mut order: Vec<usize> = (0..per_group.len()).collect();
+        if rng.chance(1, 3) {
+            rng.shuffle(&mut order);
+        }
+        for gi in order {
+            for l in &per_group[gi] {
+                s.push_str(l);
+                s.push('\n');
+            }
+        }
+    }
+    // entry points: stage (group index mod 3) reads the variables of its groups
+    let mut bodies = [String::new(), String::new(), String::new()];
+    for (gi, ns) in names.iter().enumerate() {
+        for (n, ty) in ns {
+            if let Some(e) = twin_access(ty, n) {
+                bodies[if same_space { gi % 2 } else { gi % 3 }].push_str(&format!("  acc = acc + {e};\n"));
+            }
+        }
+    }
+    s.push_str(&format!("@vertex\nfn vs_main() -> @builtin(position) vec4<f32> {{\n  var acc = 0.0;\n{}  return vec4<f32>(acc);\n}}\n", bodies[0]));
+    s.push_str(&format!("@fragment\nfn fs_main() -> @location(0) vec4<f32> {{\n  var acc = 0.0;\n{}  return vec4<f32>(acc);\n}}\n", bodies[1]));
+    if !same_space {
+        s.push_str(&format!("@compute @workgroup_size(1)\nfn cs_main() {{\n  var acc = 0.0;\n{}}}\n", bodies[2]));
+    }
+    Case::new(format!("twin{i}/groups={g}/shape={n_b}{}", if same_space { "/same-space" } else { "" }), s, Params::default().validated(i % 5 == 0))
+}
+
 impl Property for C04 {
     fn id(&self) -> &'static str {
         "C04"
     }
     fn rule(&self) -> &'static str {
-        "Seeded shaders with 1-8 dense groups (every 24th case: 11-16 groups of 1-2 bindings, i.e. two-digit group indices), 1-6 bindings per group at sparse/unordered/extreme @binding indices, declaration order shuffled across groups, 22 resource kinds (uniform/storage buffers, sampled/depth/multisampled/storage textures, samplers), look-alike names (x1/x10/x1_), plus shaders without any binding; oracle = naga module: BindGroupLayout{g} has exactly one field per variable of the group with the type of its resource class, from_bindings passes bindings.x to binding = @binding(x) with the matching BindingResource constructor and supplies exactly the indices of LAYOUT_DESCRIPTOR{g}, uses that descriptor, set() binds at index g once, set_bind_groups / BindGroups::set call each group's set once, the three SetBindGroup impls forward (index, bind_group, offsets), create_pipeline_layout lists BindGroup0..n-1 layouts in order."
+        "Seeded shaders with 1-8 dense groups (every 4th case with 1-3 var<private>/var<workgroup>/var<push_constant> declarations between the resource variables; 60 more cases with 2-4 groups of EQUAL (@binding, type) lists that differ in address space / access or only in the using stages) (every 24th case: 11-16 groups of 1-2 bindings, i.e. two-digit group indices), 1-6 bindings per group at sparse/unordered/extreme @binding indices, declaration order shuffled across groups, 22 resource kinds (uniform/storage buffers, sampled/depth/multisampled/storage textures, samplers), look-alike names (x1/x10/x1_), plus shaders without any binding; oracle = naga module: BindGroupLayout{g} has exactly one field per variable of the group with the type of its resource class, from_bindings passes bindings.x to binding = @binding(x) with the matching BindingResource constructor and supplies exactly the indices of LAYOUT_DESCRIPTOR{g}, uses that descriptor (which exists once per group and whose entries have the binding type of the group's own variables: resource class, uniform / read-only / writable storage), set() binds at index g once, set_bind_groups / BindGroups::set call each group's set once, the three SetBindGroup impls forward (index, bind_group, offsets), create_pipeline_layout lists BindGroup0..n-1 layouts in order."
     }
 
     fn cases(&self, seed: u64, tier: Tier) -> Vec<Case> {
@@ -71,10 +180,36 @@ impl Property for C04 {
             } else {
                 rng.range(1, 8) as u32
             };
-            let slots = gen::slots(n_groups, if many { 2 } else if i % 7 == 0 { 12 } else { 6 }, &mut rng);
+            let mut slots = gen::slots(n_groups, if many { 2 } else if i % 7 == 0 { 12 } else { 6 }, &mut rng);
+            // module-scope variables WITHOUT a resource binding between the resource variables (every 4th case):
+            // two of three such cases declare the groups in index order so that every prefix of the declarations
+            // has dense groups
+            let unbound = i % 4 == 1;
+            if unbound && i % 3 != 0 {
+                slots.sort_by_key(|s| s.group);
+            }
+            let mut decls: Vec<String> = slots.iter().map(|sl| sl.decl()).collect();
+            let mut tag = String::new();
+            if unbound {
+                let mut pool: Vec<&str> = vec![
+                    "var<private> acc_priv: vec4<f32>;",
+                    "var<workgroup> tile: array<f32, 64>;",
+                    "var<push_constant> pc: vec4<f32>;",
+                    "var<private> counter: u32 = 0u;",
+                    "var<workgroup> flag: atomic<u32>;",
+                ];
+                rng.shuffle(&mut pool);
+                let k = rng.range(1, 3);
+                for (j, d) in pool.iter().take(k).enumerate() {
+                    // the first one always stands in front of at least one resource variable
+                    let at = if j == 0 { rng.below(decls.len()) } else { rng.below(decls.len() + 1) };
+                    decls.insert(at, d.to_string());
+                }
+                tag = format!("/unbound={k}");
+            }
             let mut s = String::new();
-            for sl in &slots {
-                s.push_str(&sl.decl());
+            for d in &decls {
+                s.push_str(d);
                 s.push('\n');
             }
             s.push_str(match i % 3 {
@@ -82,7 +217,14 @@ impl Property for C04 {
                 1 => "@fragment\nfn fs_main() -> @location(0) vec4<f32> { return vec4<f32>(1.0); }\n",
                 _ => "@vertex\nfn vs_main() -> @builtin(position) vec4<f32> { return vec4<f32>(1.0); }\n@fragment\nfn fs_main() {}\n",
             });
-            out.push(Case::new(format!("gen{i}/groups={n_groups}/vars={}", slots.len()), s, Params::default().validated(i % 5 == 0)));
+            out.push(Case::new(format!("gen{i}/groups={n_groups}/vars={}{tag}", slots.len()), s, Params::default().validated(i % 5 == 0)));
+        }
+        // --- groups of the same shape: equal (@binding, WGSL type) lists in 2-4 groups that differ in address space /
+        // access (uniform, storage read, storage read_write) or only in the stages that use them
+        let n_twins = if tier == Tier::Quick { 60 } else { 600 };
+        for i in 0..n_twins {
+            let mut rng = Rng::new(seed, 0xC04_7000 + i as u64);
+            out.push(twin_case(i, &mut rng));
         }
         out
     }
@@ -100,6 +242,27 @@ impl Property for C04 {
                     Some(c) => groups.entry(b.group).or_default().push((name.clone(), b.binding, c)),
                     None => return Outcome::skip("resource type outside the supported set"),
                 }
+            }
+        }
+        // (group, binding) -> leading text of the layout entry's `ty:` for that variable (wgpu's BindingType for the
+        // variable's resource class; buffers: uniform / read-only storage / writable storage from the address space)
+        let mut kinds: BTreeMap<(u32, u32), String> = BTreeMap::new();
+        for (_, g) in m.global_variables.iter() {
+            if let Some(b) = &g.binding {
+                let k = match (class_of(&m, g.ty), g.space) {
+                    (Some(Class::Buffer), naga::AddressSpace::Uniform) => "wgpu::BindingType::Buffer{ty:wgpu::BufferBindingType::Uniform,".to_string(),
+                    (Some(Class::Buffer), naga::AddressSpace::Storage { access }) => {
+                        format!("wgpu::BindingType::Buffer{{ty:wgpu::BufferBindingType::Storage{{read_only:{}}},", !access.contains(naga::StorageAccess::STORE))
+                    }
+                    (Some(Class::Texture), _) => match m.types[g.ty].inner {
+                        naga::TypeInner::Image { class: naga::ImageClass::Storage { .. }, .. } => "wgpu::BindingType::StorageTexture{".to_string(),
+                        _ => "wgpu::BindingType::Texture{".to_string(),
+                    },
+                    (Some(Class::Sampler), _) => "wgpu::BindingType::Sampler(".to_string(),
+                    _ => continue,
+                };
+                // a repeated pair is not an accepted shader; keep the first
+                kinds.entry((b.group, b.binding)).or_insert(k);
             }
         }
         let text = match run_lib(&case.wgsl, &case.params) {
@@ -136,9 +299,24 @@ impl Property for C04 {
                 Err(e) => o.fail(case, format!("struct BindGroupLayout{g}"), "exactly one", e),
             }
             // --- layout descriptor indices
-            let layout_idx: Option<BTreeSet<String>> = one(bg, Kind::Const, &format!("LAYOUT_DESCRIPTOR{g}")).ok().map(|c| layout_entries(&c.value).into_iter().map(|e| e.binding).collect());
+            let desc = one(bg, Kind::Const, &format!("LAYOUT_DESCRIPTOR{g}")).ok();
+            let layout_idx: Option<BTreeSet<String>> = desc.map(|c| layout_entries(&c.value).into_iter().map(|e| e.binding).collect());
             if layout_idx.is_none() {
                 o.fail(case, format!("LAYOUT_DESCRIPTOR{g}"), "exactly one", "missing or repeated");
+            }
+            // --- the descriptor describes THIS group's variables: resource class, and for buffers the address space / access
+            if let Some(c) = desc {
+                let entries = layout_entries(&c.value);
+                for (name, binding, _) in vars {
+                    let want = match kinds.get(&(*g, *binding)) {
+                        Some(w) => w,
+                        None => continue,
+                    };
+                    let hits: Vec<&LayoutEntry> = entries.iter().filter(|e| e.binding == binding.to_string()).collect();
+                    if hits.len() != 1 || !hits[0].ty.starts_with(want.as_str()) {
+                        o.fail(case, format!("entry of `{name}` in LAYOUT_DESCRIPTOR{g} (group {g}'s own layout)"), format!("one entry with binding: {binding}, ty: {want}.."), format!("{:?}", hits.iter().map(|e| e.raw.clone()).collect::<Vec<_>>()));
+                    }
+                }
             }
             // --- impl BindGroup{g}
             let im = match one(bg, Kind::Impl, &format!("|BindGroup{g}")) {
